@@ -107,12 +107,16 @@ def gen_sched(rng, info, force=None):
 
 
 def set_budgets(sched, info):
-    stall_time = sum(s['duration'] or 0.0 for s in sched.get('stalls', ()))
+    # an 'until idle' stall ends after Sim.idle_cap (3600 s) at the latest
+    stall_time = sum(3600.0 if s['duration'] is None else s['duration']
+                     for s in sched.get('stalls', ()))
     # liveness as bounded progress once faults stop: 20x the fault-free thread steps (+ one extra
     # step per byte on the wire, the worst case of byte-wise chunking) after the last fault
     sched['steps_after_fault'] = 20 * (info['steps'] + info['bytes']) + 1000
     sched['max_decisions'] = 60 * (info['decisions'] + info['bytes']) + 5000
-    sched['max_time'] = 3 * (info['now'] + stall_time) + 6.0 * info['messages'] + 100.0
+    # + Sim.max_defer (2 s) per thread step: the most that 'events first' may add
+    sched['max_time'] = 3 * (info['now'] + stall_time) + 6.0 * info['messages'] + 100.0 + \
+        2.0 * (info['steps'] + info['bytes'])
 
 
 def evaluate_run(run, props, cov):
